@@ -235,7 +235,7 @@ def inject_replay(run, tf, n, preds, label, target):
     return st
 
 
-SIZES = {"quick": dict(traces=16, steps=140), "thorough": dict(traces=240, steps=300)}
+SIZES = {"quick": dict(traces=20, steps=140), "thorough": dict(traces=240, steps=300)}
 
 
 def run_ledger(run):
